@@ -326,6 +326,95 @@ def lean_audit(prop, lean_dir=None):
                 theorems=thms, problems=problems)
 
 
+# ------------------------------------------------------------------------------------------
+# translator tie: Gen/Cxx/*.lean regenerated from the current source + the theorems of Tie/*.lean
+
+TIES = {
+    'Find': dict(props=['C01', 'C02'], theorems=['find_eq', 'find_tie'], cxx='trompeloeil::find (mock.hpp)'),
+    'Cost': dict(props=['C05'], theorems=['cost_eq', 'cost_tie'], cxx='sequence_type::cost (sequence.hpp)'),
+    'Order': dict(props=['C02', 'C05'], theorems=['order_eq', 'order_tie'], cxx='sequence_matchers<N>::order (sequence.hpp)'),
+    'RetireUntil': dict(props=['C05'], theorems=['retire_until_eq', 'retire_tie'], cxx='sequence_type::retire_until (sequence.hpp)'),
+    'IsCompleted': dict(props=['C06'], theorems=['is_completed_eq', 'completed_tie'], cxx='sequence_type::is_completed (sequence.hpp)'),
+    'ValidateMatch': dict(props=['C05', 'C15'], theorems=['validate_match_eq', 'validate_tie'], cxx='sequence_type::validate_match (sequence.hpp)'),
+    'SeqDtor': dict(props=['C06'], theorems=['seq_dtor_eq', 'teardown_tie'], cxx='sequence_type::~sequence_type (sequence.hpp)'),
+}
+
+
+def lean_workdir():
+    """the Lean project that regenerated files are written into: /verif/lean itself, or a scratch copy (with its build
+    products, so that the rebuild is incremental) when the check runs against a variant of the tree (VERIF_OUT set),
+    so that the real project is never touched by a variant."""
+    out = os.environ.get('VERIF_OUT')
+    if not out:
+        return LEAN_DIR
+    import shutil
+    dst = os.path.join(out, 'lean')
+    if not os.path.exists(dst):
+        shutil.copytree(LEAN_DIR, dst, symlinks=True)
+    return dst
+
+
+def tie_check(prop, lean_dir=None):
+    """Regenerates Gen/Cxx/*.lean from REPO's current source and re-checks the tie theorems that serve `prop`.
+    -> dict(modules, obligations, discharged, theorems=[(name, axioms)], broken=[(module, what)])"""
+    import cxx2lean
+    mods = [m for m in TIES if prop in TIES[m]['props']]
+    res = dict(modules=mods, obligations=0, discharged=0, theorems=[], broken=[], index=[])
+    if not mods:
+        return res
+    lean_dir = lean_dir or lean_workdir()
+    cxx2lean.REPO = REPO
+    index, failures = cxx2lean.generate(os.path.join(lean_dir, 'TrompModel', 'Gen'))
+    res['index'] = ['%s <- %s:%d' % (n, f, ln) for n, m, f, ln in index if m in mods]
+    failed_mods = {}
+    for name, mod, msg in failures:
+        failed_mods[mod] = 'translator: ' + msg
+    t0 = time.time()
+    r = sh(['lake', 'build'] + ['TrompModel.Tie.' + m for m in mods], cwd=lean_dir)
+    if r.returncode != 0:
+        for m in mods:
+            r1 = sh(['lake', 'build', 'TrompModel.Tie.' + m], cwd=lean_dir)
+            if r1.returncode != 0 and m not in failed_mods:
+                errs = re.findall(r'error: [^\n]*(?:\n(?!error:|warning:|✖|✔|ℹ|⚠)[^\n]*){0,12}', r1.stdout + r1.stderr)
+                failed_mods[m] = 'lake build TrompModel.Tie.%s fails:\n%s' % (m, '\n'.join(errs[:3])[:3000])
+    if time.time() - t0 > 5:
+        log('[tie] lake build %.0fs' % (time.time() - t0))
+    for m in mods:
+        res['obligations'] += len(TIES[m]['theorems'])
+        if m in failed_mods:
+            res['broken'].append((m, 'the translation of %s no longer provably equals the model definition (theorems %s of '
+                                     'lean/TrompModel/Tie/%s.lean)\n%s' % (TIES[m]['cxx'], ', '.join(TIES[m]['theorems']), m, failed_mods[m])))
+    good = [m for m in mods if m not in failed_mods]
+    if good:
+        probe = os.path.join(lean_dir, '.lake', 'audit_tie_%s.lean' % prop)
+        with open(probe, 'w') as fh:
+            for m in good:
+                fh.write('import TrompModel.Tie.%s\n' % m)
+            for m in good:
+                for t in TIES[m]['theorems']:
+                    fh.write('#print axioms Tromp.Tie.%s\n' % t)
+        r = sh(['lake', 'env', 'lean', probe], cwd=lean_dir)
+        out = r.stdout + r.stderr
+        for m in good:
+            for t in TIES[m]['theorems']:
+                full = 'Tromp.Tie.' + t
+                mm = re.search(r"'%s' depends on axioms: \[(.*?)\]" % re.escape(full), out, flags=re.S)
+                m0 = re.search(r"'%s' does not depend on any axioms" % re.escape(full), out)
+                ax = [a.strip() for a in mm.group(1).replace('\n', ' ').split(',') if a.strip()] if mm else ([] if m0 else None)
+                res['theorems'].append((full, ax))
+                if ax is None or [a for a in ax if a not in ALLOWED_AXIOMS]:
+                    res['broken'].append((m, 'axiom audit of %s: %s' % (full, ax)))
+                else:
+                    res['discharged'] += 1
+        for root in (os.path.join(lean_dir, 'TrompModel', 'Tie'), os.path.join(lean_dir, 'TrompModel', 'Gen', 'Cxx')):
+            for f in os.listdir(root):
+                if f.endswith('.lean'):
+                    mt = FORBIDDEN_TOKENS.search(strip_comments(open(os.path.join(root, f)).read()))
+                    if mt:
+                        res['broken'].append((f, 'forbidden token %r in %s' % (mt.group(0), f)))
+    return res
+
+
 def leanchecker(prop):
     r = sh(['lake', 'env', 'leanchecker', 'TrompModel.Props.' + prop], cwd=LEAN_DIR)
     return r.returncode == 0, (r.stdout + r.stderr)[-1500:]
